@@ -126,68 +126,138 @@ func (w *world) ts(n uint64) uint64 {
 func allJobs(f lib.Flags) []job {
 	var jobs []job
 	jobs = append(jobs, leadJobs(f)...)
+	jobs = append(jobs, bloomJobs(f)...) // the long ones first, they overlap with everything else
 	jobs = append(jobs, arithJobs(f)...)
 	jobs = append(jobs, batchJobs(f)...)
 	jobs = append(jobs, minAgeJobs(f)...)
 	jobs = append(jobs, randomJobs(f)...)
-	if f.Thorough() {
-		jobs = append(jobs, bloomJobs(f)...)
+	return jobs
+}
+
+// --- the 8192-block event-index windows ----------------------------------------------------------------
+
+const bloomW = 8192
+
+func bloomJobs(f lib.Flags) []job {
+	var jobs []job
+	for _, ns := range []bool{false, true} {
+		ns := ns
+		name := jobName("bloom-window/new=%v", ns)
+		jobs = append(jobs, job{name: name, run: func(e *env) { bloomWindow(e, name, ns) }})
 	}
 	return jobs
 }
 
-// --- the 8192-block event-index window (thorough tier) -------------------------------------------------
-
-func bloomJobs(f lib.Flags) []job {
-	// New state backend only: on the memory database every legacy history read and every IndexedBatch
-	// iterator copies the whole store, which is quadratic at this chain length.
-	name := jobName("bloom-window/new=%v", true)
-	return []job{{name: name, run: func(e *env) { bloomWindow(e, name, true) }}}
-}
-
-// 8200 blocks: a prune that stops inside the first aggregated-bloom window must keep that window's
-// filter; a prune that crosses the boundary deletes exactly the windows below it; event queries from the
-// floor keep answering like the twin, also after a restart (running filter rebuilt from the floor).
-func bloomWindow(e *env, name string, newState bool) {
-	opt := lib.DefaultGenOptions()
-	opt.MaxTxs, opt.MaxEvents, opt.NoClasses, opt.EmptyDiffs = 1, 2, true, 60
+// bloomBase: one chain of 2*8192+14 bare blocks (events in a few blocks of every window) and two node
+// images taken while storing it: head in window 1 (8200 blocks) and head in window 2 (2*8192+6 blocks).
+// The model starts from the closed form `bulk k` (Props.bulk_is_k_stores).
+func bloomBase(newState bool) (b1, b2 *baseImage, err error) {
 	baseMu.Lock()
-	key := fmt.Sprintf("bloom/%v", newState)
-	b, ok := bases[key]
-	if !ok {
-		ch := newChain(lib.NewRNG(77), newState, opt)
-		node, d := lib.NewNode(ch.g.Net, newState)
-		b = &baseImage{ch: ch, db: d, height: 8199}
-		for i := 0; i < 8204; i++ {
-			bd, err := ch.next(true)
-			if err != nil {
-				baseMu.Unlock()
-				e.res.Note("%s: generator: %v", name, err)
-				return
-			}
-			if i < 8200 {
-				if err := lib.StoreOn(node, bd); err != nil {
-					baseMu.Unlock()
-					e.res.Note("%s: store %d: %v", name, i, err)
-					return
-				}
-				b.lines = append(b.lines, "store")
+	defer baseMu.Unlock()
+	k1, k2 := fmt.Sprintf("bloom1/%v", newState), fmt.Sprintf("bloom2/%v", newState)
+	if b, ok := bases[k2]; ok {
+		return bases[k1], b, nil
+	}
+	ch := newChain(lib.NewRNG(77), newState, lib.DefaultGenOptions())
+	node, d := lib.NewNode(ch.g.Net, newState)
+	evBlocks := map[int]bool{60: true, 8150: true, 8191: true, 8192: true, 8193: true, 8199: true, 8230: true, 8243: true,
+		8300: true, 12000: true, 16383: true, 16384: true, 16386: true, 16389: true, 16391: true}
+	const n1, n2, total = 8200, 2*bloomW + 6, 2*bloomW + 14
+	for i := 0; i < total; i++ {
+		bd, err := ch.nextBare(evBlocks[i])
+		if err != nil {
+			return nil, nil, fmt.Errorf("generator: %w", err)
+		}
+		if i < n2 {
+			if err := lib.StoreOn(node, bd); err != nil {
+				return nil, nil, fmt.Errorf("base image: store %d: %w", i, err)
 			}
 		}
-		bases[key] = b
+		if i == n1-1 {
+			b1 = &baseImage{ch: ch, db: d.Copy(), height: n1 - 1, lines: []string{fmt.Sprintf("bulk %d", n1)}}
+		}
 	}
-	baseMu.Unlock()
-	for _, l1 := range []uint64{8190, 8194, 8198} {
-		w := cloneWorld(e, b, prunerCfg{Retained: 2, L2PerPrune: 1, BatchBytes: hugeBatch}, 0, name, map[string]any{"l1": l1})
-		w.writeL1(l1)
-		w.event("l1", l1, 0, noPlan())
+	b2 = &baseImage{ch: ch, db: d, height: n2 - 1, lines: []string{fmt.Sprintf("bulk %d", n2)}}
+	bases[k1], bases[k2] = b1, b2
+	return b1, b2, nil
+}
+
+// An UNALIGNED floor inside an already persisted window: that window's aggregated filter indexes retained
+// blocks and must survive the prune (event queries over the retained blocks read it through the cache
+// fallback; reverting the head back across the window boundary reloads it). Floors: block 50 with the head
+// in window 1; block 8242 with the head in window 2; then an aligned floor (16384). In between: filtered and
+// unfiltered event queries from every retained block of interest vs the twin, revert across every window
+// boundary above the floor and re-extend, restart.
+func bloomWindow(e *env, name string, newState bool) {
+	b1, b2, err := bloomBase(newState)
+	if err != nil {
+		e.res.Note("%s: %v", name, err)
+		return
+	}
+	type cfg struct {
+		base  *baseImage
+		l1    uint64
+		extra []uint64
+	}
+	cases := []cfg{
+		{b1, 52, []uint64{50, 51, 60, 8150, 8191, 8192, 8193}},
+		{b2, bloomW + 52, []uint64{8242, 8243, 8300, 12000, 16383, 16384, 16385, 16386}},
+	}
+	for _, c := range cases {
+		w := cloneWorld(e, c.base, prunerCfg{Retained: 2, L2PerPrune: 1, BatchBytes: hugeBatch}, 0, name,
+			map[string]any{"l1": c.l1, "head": c.base.height})
+		w.noState = true
+		w.extra = map[uint64]bool{}
+		for _, x := range c.extra {
+			w.extra[x] = true
+		}
+		// Before the prune the node stores a block, as a syncing node does: that initialises the running event
+		// filter of this process (a filter initialised only AFTER the prune would be rebuilt from the floor and
+		// re-persist the windows on its way). No query before the prune: the in-memory cache of persisted
+		// filters stays cold, so the event queries after it read the persisted windows through the fallback.
+		w.store()
+		w.writeL1(c.l1)
+		w.event("l1", c.l1, 0, noPlan())
+		w.observe() // same process: nothing cached yet, the persisted windows are read from disk
+		// revert the head back across every window boundary above the floor, then re-extend
+		top := w.height
+		floorWin := int(c.l1-2) / bloomW
+		for w.height >= (floorWin+1)*bloomW-1 && uint64(w.height) > w.fspec+1 {
+			crossing := (w.height+1)%bloomW == 0
+			if !w.revert() {
+				break
+			}
+			if crossing {
+				w.observe()
+			}
+		}
+		w.observe()
+		for w.height < top {
+			if !w.store() {
+				break
+			}
+		}
 		w.observe()
 		w.restart("orderly")
 		w.situation = "steady"
 		w.observe()
-		if w.store() && w.store() {
-			w.writeL1(l1 + 2)
-			w.event("l1", l1+2, 0, noPlan())
+		// once more after the restart (running filter rebuilt from the floor)
+		for w.height >= (floorWin+1)*bloomW-1 && uint64(w.height) > w.fspec+1 {
+			if !w.revert() {
+				break
+			}
+		}
+		w.observe()
+		for w.height < top+2 && w.height+1 < w.ch.g.Height() {
+			if !w.store() {
+				break
+			}
+		}
+		w.observe()
+		if c.base == b2 {
+			// an aligned floor: every window below it goes, none above
+			w.writeL1(2*bloomW + 2)
+			w.event("l1", 2*bloomW+2, 0, noPlan())
 			w.observe()
 		}
 		w.close()
